@@ -117,14 +117,20 @@ fn multinomial(rng: &mut fastrand::Rng, probs: &[f32]) -> Option<usize> {
     let target = verif::forced_target().unwrap_or(target);
 
     let mut cum_prob = 0.;
+    // Last item with a non-zero probability. Selected if rounding leaves the
+    // cumulative sum at or below `target`.
+    let mut last_nonzero = None;
     for (idx, &prob) in probs.iter().enumerate() {
+        if prob > 0. {
+            last_nonzero = Some(idx);
+        }
         cum_prob += prob;
-        if target <= cum_prob {
+        if target < cum_prob {
             return Some(idx);
         }
     }
 
-    None
+    last_nonzero
 }
 
 /// Verification hooks (used by the checkers in /verif). Not part of the API.
